@@ -99,6 +99,18 @@ def patch_check(kind, case, rec):
         rec.label("region-reloaded-after-in-place-point-update")
     else:
         region = gm.region(mesh, info)
+    if case["mesh"].get("jseed", 0) % 3 == 2:
+        # a copy of the region was taken for a geometry variant (its own points moved in place, then reloaded): the original region
+        # and its mesh are not affected
+        import warnings
+
+        variant = region.copy()
+        r_ = np.random.default_rng(case["mesh"].get("jseed", 0) + 3)
+        with warnings.catch_warnings():
+            warnings.simplefilter("ignore")
+            variant.mesh.points[:] = np.asarray(variant.mesh.points) + np.where(info["boundary"][:, None], 0.0, 0.12 * info["h"] * r_.uniform(-1, 1, np.asarray(variant.mesh.points).shape))
+            variant.reload()
+        rec.label("after-a-modified-copy-of-the-region")
     X = np.array(mesh.points)
     ps = dim == 2
     fld = fem.FieldPlaneStrain(region, dim=2) if ps else fem.Field(region, dim=3)
